@@ -1076,9 +1076,9 @@ int main(int argc, char** argv) {
     uint64_t ntri = (uint64_t) TRI_N * TRI_N * TRI_N * 2;
     std::vector<vf::Section> S = {
         { "outcome_triples", ntri, ntri, sec_triples, true },
-        { "registry_programs", 1000, 7000, sec_registry, false },
-        { "runner_programs", 700, 5000, sec_runner, false },
-        { "process_programs", 80, 300, sec_process, false },
+        { "registry_programs", 3000, 40000, sec_registry, false },
+        { "runner_programs", 2000, 25000, sec_runner, false },
+        { "process_programs", 200, 1200, sec_process, false },
     };
     return vf::harness_main(argc, argv, S, nullptr);
 }
